@@ -23,9 +23,9 @@ func init() {
 		Level: "exploration",
 		Cases: func(t string) int {
 			if t == "thorough" {
-				return 8000
+				return 16000
 			}
-			return 640
+			return 1280
 		},
 		Batch: func(t string) int { return 32 },
 		Floors: []string{"roundtrips", "mode_encrypted_footer", "mode_plaintext_footer", "keys_footer_only", "keys_per_column", "missing_column_key_checks", "leak_scans", "markers_searched", "tamper_byte_flips", "tamper_truncations", "tamper_module_swaps",
